@@ -161,6 +161,17 @@ def replay(ctx, path):
         if not mine:
             print("not reproduced")
         raise SystemExit(1 if mine else 0)
+    if rec.get("pipeline") == "body":
+        cf = os.path.join(ctx.work, "rp.cases.ndjson")
+        open(cf, "w").write(json.dumps(rec["case"]) + "\n")
+        ctx.run_hx(["body", "-cases", cf, "-layouts", "4", "-out", os.path.join(ctx.work, "rp"), "-shards", "1"])
+        bad, _ = ctx.validate_traces("TraceBody.tla", "TraceBody.cfg", sorted(glob.glob(os.path.join(ctx.work, "rp.*.ndjson"))))
+        mine = [b for b in bad if b["prop"] == rec["property"]]
+        for b in mine:
+            print("REPRODUCED property=%s %s" % (b["prop"], b["what"]))
+        if not mine:
+            print("not reproduced")
+        raise SystemExit(1 if mine else 0)
     raise Infra("unknown replay record")
 
 
@@ -281,3 +292,78 @@ def p_c18(ctx):
                 "TLC applies Session!InsertLinesAt to its text model and checks every reported position against Text!ShiftPos; evaluations = query pairs",
         "traces_validated_against_impl": len(files), "trace_events": info["events"], "samples": samples, "exhaustive": not ctx.quick},
         assumptions=["inserted material: blank lines, #, // (multi-byte) and /* */ comment lines placed before a top-level item or after the last one"])
+
+
+# ------------------------------------------------------------------------------------------------
+# Body family: C07 C15 (C16 adds its own part) - direction A (MC_Body -> replay) + TraceBody
+# ------------------------------------------------------------------------------------------------
+def tlc_cases(ctx, module, cfg, name, workers=8, timeout=3000):
+    """Run an MC config that prints JSON cases from a state constraint; returns path of the de-duplicated case file."""
+    out, ok = ctx.tlc(module, cfg, name, workers=workers, timeout=timeout)
+    seen, path = set(), os.path.join(ctx.work, name + ".cases.ndjson")
+    with open(path, "w") as f:
+        for line in out.splitlines():
+            if line.startswith('"{'):
+                s = json.loads(line)
+                if s not in seen:
+                    seen.add(s)
+                    f.write(s + "\n")
+    if not seen:
+        raise Infra("%s/%s printed no cases:\n%s" % (module, cfg, out[-1500:]))
+    return path, len(seen)
+
+
+def sens(ctx, module, cfg, name):
+    """A sensitivity config (the spec with a named deviation enabled) must be rejected by TLC, otherwise the MC check is vacuous."""
+    out, ok = ctx.tlc(module, cfg, name, workers=4, timeout=600, expect_violation=True)
+    if "Invariant" not in out or "is violated" not in out:
+        raise Infra("sensitivity config %s was not rejected by TLC (vacuous model?)\n%s" % (cfg, out[-800:]))
+
+
+def body_family(ctx, want):
+    cfg = "MC_Body_quick.cfg" if ctx.quick else "MC_Body_full.cfg"
+    cases, ncases = tlc_cases(ctx, "MC_Body.tla", cfg, "mcbody")
+    sens(ctx, "MC_Body.tla", "MC_Body_sens.cfg", "mcbodysens")
+    files, nev = [], 0
+    runs = [["body", "-cases", cases, "-layouts", "2" if ctx.quick else "4", "-out", os.path.join(ctx.work, "ba")],
+            ["body", "-gen", "3000" if ctx.quick else "60000", "-layouts", "2" if ctx.quick else "3", "-out", os.path.join(ctx.work, "bg")]]
+    for r in runs:
+        p = ctx.run_hx(r + ["-seed", str(ctx.seed)])
+        info = json.loads(p.stdout.strip().splitlines()[-1])
+        nev += info["events"]
+    files = sorted(glob.glob(os.path.join(ctx.work, "ba.*.ndjson")) + glob.glob(os.path.join(ctx.work, "bg.*.ndjson")))
+    bad, events = ctx.validate_traces("TraceBody.tla", "TraceBody.cfg", files)
+    viols, samples, distinct = [], [], set()
+    cache = {}
+    for f in files:
+        cache[f] = [json.loads(x) for x in open(f)]
+        for e in cache[f]:
+            if e["ev"] == "Body":
+                distinct.add((os.path.basename(f)[:2], e["case"]))
+        if len(samples) < 3 and cache[f]:
+            e = cache[f][len(cache[f]) // 2]
+            samples.append({"doc": e.get("doc"), "cur": e.get("cur"), "obs": e.get("obs")})
+    for b in bad:
+        if b["prop"] not in want:
+            continue
+        e = cache[b["file"]][b["l"] - 1]
+        viols.append({"what": b["what"], "prop": b["prop"],
+                      "replay": {"pipeline": "body", "case": {"schema": e["schema"], "doc": e["doc"], "cur": e["cur"]}, "layout": e["layout"], "obs": e["obs"]}})
+    cov = {"evaluations": nev, "distinct_nontrivial": len(distinct),
+           "rule": "case = (abstract schema, document, cursor): every state of the exhaustive MC_Body universe (%s; sampled emission in the thorough tier) plus seeded random cases "
+                   "beyond its bounds, each rendered in several layouts and run through the real completion/validation; TraceBody.tla recomputes CandP / LabelCandP / Diags and compares" % cfg,
+           "traces_validated_against_impl": len(files), "trace_events": events, "tlc_cases": ncases, "samples": samples,
+           "exhaustive": ctx.quick}
+    return viols, cov
+
+
+@pipeline("C07")
+def p_c07(ctx):
+    viols, cov = body_family(ctx, {"C07"})
+    finish(ctx, viols, cov, assumptions=["names over [a-z0-9_]; a block type shadowed by a non-declarable attribute and the any-attribute placeholder may or may not be offered (DESIGN 5/C07)"])
+
+
+@pipeline("C15")
+def p_c15(ctx):
+    viols, cov = body_family(ctx, {"C15"})
+    finish(ctx, viols, cov, assumptions=["nothing is asserted about items nested inside a block without schema (unknown type / block schema without body)"])
